@@ -70,8 +70,89 @@ def run(ctx):
                 R.rules[rid_].floor = min(R.rules[rid_].floor, R.rules[rid_].instances)
     else:
         padding_rules(ctx, ev)
+    merge_accumulation_rule(ctx)
     close_merge_rules(ctx, ev0)
     producers_rules(ctx)
+
+
+def merge_accumulation_rule(ctx):
+    """Duplicate URIs are refused by add_cache_slot, which sees one pair at a time.  That refusal covers pairs of *different* input
+    files only if every pair reaches it: a mapping keyed by URI that is filled across the loop over the input files (a dictionary
+    comprehension with the inputs as its outer generator, `d.update(...)` / `d[k] = v` / `d |= ...` inside the loop on a mapping that
+    outlives one iteration) keeps the last payload of a repeated URI and drops the others before the refusal can see them.
+    Decided on the syntax of merge_cache_files and the module functions it reaches; a gathering that tests membership first is a
+    form this rule does not decide (exit 2)."""
+    R = ctx.report
+    repo = ctx.repo
+    m = repo.mod(MOD)
+    mf = repo.func(MOD, "CacheMerge.merge_cache_files")
+    R.rule("C10-D3e pairs of different inputs are not gathered in a mapping", 1,
+           "no mapping keyed by URI is filled across the iteration over the input files before the pairs reach add_cache_slot")
+    params = mf.params()
+    if len(params) < 2:
+        raise AnalysisError(f"{ctx.fq(mf)}: parameters (cache, inputs) not recognised")
+    inputs = params[-1]
+    # names that hold the list of inputs inside merge_cache_files (the parameter and plain copies of it)
+    held = {inputs}
+    for n in ast.walk(mf.node):
+        if isinstance(n, ast.Assign) and len(n.targets) == 1 and isinstance(n.targets[0], ast.Name):
+            v = n.value
+            if isinstance(v, ast.Name) and v.id in held:
+                held.add(n.targets[0].id)
+            elif isinstance(v, ast.Call) and isinstance(v.func, ast.Name) and v.func.id in ("list", "tuple", "sorted", "reversed") and v.args \
+                    and isinstance(v.args[0], ast.Name) and v.args[0].id in held:
+                held.add(n.targets[0].id)
+
+    def over_inputs(it):
+        if isinstance(it, ast.Call) and isinstance(it.func, ast.Name) and it.func.id in ("enumerate", "iter", "list", "tuple", "reversed") and it.args:
+            it = it.args[0]
+        return isinstance(it, ast.Name) and it.id in held
+
+    sites = 0
+    for n in ast.walk(mf.node):
+        if isinstance(n, ast.DictComp) and n.generators and over_inputs(n.generators[0].iter):
+            sites += 1
+            multi = len(n.generators) > 1
+            keyed_by_file = isinstance(n.key, ast.Name) and isinstance(n.generators[0].target, ast.Name) and n.key.id == n.generators[0].target.id
+            R.check("C10-D3e pairs of different inputs are not gathered in a mapping", not multi or keyed_by_file, f"dictionary comprehension at line {n.lineno}",
+                    mod=mf.module, node=n, function=ctx.fq(mf), expected="every (URI, payload) pair of every input file reaches add_cache_slot, which refuses a repeated URI",
+                    found="the pairs of all input files are gathered in one dictionary keyed by URI: a URI present in two inputs keeps its last payload, "
+                          "the earlier pair never reaches the duplicate test")
+        elif isinstance(n, (ast.For, ast.AsyncFor)) and over_inputs(n.iter):
+            sites += 1
+            local = {t.id for x in ast.walk(n) for t in ([x.targets[0]] if isinstance(x, ast.Assign) and len(x.targets) == 1 else [])
+                     if isinstance(t, ast.Name)}
+            outer_maps = set()
+            for a in ast.walk(mf.node):
+                if isinstance(a, ast.Assign) and len(a.targets) == 1 and isinstance(a.targets[0], ast.Name) and a.lineno < n.lineno:
+                    v = a.value
+                    if isinstance(v, (ast.Dict, ast.DictComp)) or (isinstance(v, ast.Call) and isinstance(v.func, ast.Name) and v.func.id in ("dict", "OrderedDict", "defaultdict")):
+                        outer_maps.add(a.targets[0].id)
+            outer_maps -= local
+            bad = None
+            for x in ast.walk(n):
+                tgt = None
+                if isinstance(x, ast.Assign) and len(x.targets) == 1 and isinstance(x.targets[0], ast.Subscript) and isinstance(x.targets[0].value, ast.Name):
+                    tgt = x.targets[0].value.id
+                elif isinstance(x, ast.AugAssign) and isinstance(x.op, ast.BitOr) and isinstance(x.target, ast.Name):
+                    tgt = x.target.id
+                elif isinstance(x, ast.Call) and isinstance(x.func, ast.Attribute) and x.func.attr in ("update", "setdefault") and isinstance(x.func.value, ast.Name):
+                    tgt = x.func.value.id
+                if tgt in outer_maps:
+                    bad = (x, tgt)
+                    break
+            if bad is not None:
+                tested = any(isinstance(c, ast.Compare) and any(isinstance(o, (ast.In, ast.NotIn)) for o in c.ops)
+                             and any(isinstance(k, ast.Name) and k.id == bad[1] for k in c.comparators) for c in ast.walk(n))
+                if tested:
+                    raise AnalysisError(f"{ctx.fq(mf)}: pairs gathered in the mapping '{bad[1]}' with a membership test: not a form the merge rules decide")
+            R.check("C10-D3e pairs of different inputs are not gathered in a mapping", bad is None, f"loop over the input files at line {n.lineno}",
+                    mod=mf.module, node=bad[0] if bad else n, function=ctx.fq(mf),
+                    expected="every (URI, payload) pair of every input file reaches add_cache_slot, which refuses a repeated URI",
+                    found=f"the pairs are gathered across the input files in the mapping '{bad[1]}' keyed by URI: a repeated URI keeps one payload, "
+                          "the other pair never reaches the duplicate test" if bad else "")
+    if not sites:
+        raise AnalysisError(f"{ctx.fq(mf)}: no iteration over the input files found")
 
 
 def slot_rules(ctx, ev):
